@@ -2,6 +2,7 @@ import NeumannModel.Common.Proto
 import NeumannModel.Vec.Model
 import NeumannModel.Vec.NsModel
 import NeumannModel.Vec.HnswModel
+import NeumannModel.Vec.EmbModel
 /- Line-protocol driver for the vector-search model (C06).  Stateful: one engine per process,
    `reset` starts a fresh one.  Vectors are comma separated integers, `-` = empty. -/
 open Neumann Neumann.Proto Neumann.Vec
@@ -24,6 +25,9 @@ structure DState where
   h : HState := HState.init
   /-- the storage-key layer of the `ns ..` commands (its own engine) -/
   fs : Flat := Flat.init
+  /-- the collection of the `e ..` commands (`EmbModel.lean`: any metric, index of that metric
+      with any node storage; its own engine) -/
+  ec : ECol := ECol.init .cosine
 
 def showErr : Err → String
   | .emptyVector => "empty_vector" | .invalidTopK => "invalid_top_k"
@@ -36,6 +40,9 @@ def showMetric : Metric → String
 
 def parseMetric : String → Option Metric
   | "cosine" => some .cosine | "euclid" => some .euclid | "dot" => some .dot | _ => none
+
+def parseStorage : String → Option NodeStorage
+  | "dense" => some .dense | "auto" => some .auto | "sparse" => some .sparse | _ => none
 
 def parseStrategy : String → Option Strategy
   | "auto" => some .auto | "pre" => some .pre | "post" => some .post | _ => none
@@ -62,6 +69,11 @@ def showOut (q : List Int) : SearchOut → String
   | .viaIndex snap rs cut k => s!"index m=cosine A={normSq q} cut={cut} k={k} n={snap.length} | {showCands rs}"
   -- not produced by the current code (`cached_index_dimension_guard`); kept for totality
   | .indexDimMismatch snap => s!"index_dim_mismatch n={snap.length}"
+
+/-- an answer taken from an index whose metric is `m` (`EmbModel.lean`) -/
+def showOutM (m : Metric) (q : List Int) : SearchOut → String
+  | .viaIndex snap rs cut k => s!"index m={showMetric m} A={normSq q} cut={cut} k={k} n={snap.length} | {showCands rs}"
+  | other => showOut q other
 
 /-- `-` or `f=1;g=-2` -/
 def parseMeta (s : String) : Option (List (String × Int)) :=
@@ -176,6 +188,48 @@ def vecStep (d : DState) (line : String) : DState × String :=
           | some snap => (d, showOut q (searchWithHnsw snap q k))
           | none => (d, "err build_dim_mismatch"))
       | _, _ => bad
+  -- the node `insert` / `insert_auto` / `insert_sparse(from_dense ..)` makes of a vector, and what
+  -- `get_vector` reads back
+  | ["enode", sg, v] => match parseStorage sg, parseInts v with
+      | some sg, some v => (d, s!"ok {showStored (nodeOf sg v)} {showInts (toDense intOps (nodeOf sg v))}")
+      | _, _ => bad
+  -- `distance_dense(query, metric)` of that node: the exact ingredients
+  | ["edist", m, sg, v, q] => match parseMetric m, parseStorage sg, parseInts v, parseInts q with
+      | some m, some sg, some v, some q =>
+        let s := distDense m (nodeOf sg v) q
+        (d, s!"ok {s.p} {s.r}")
+      | _, _, _, _ => bad
+  -- `distance_sparse(SparseVector::from_dense(query), metric)` of that node
+  | ["edists", m, sg, v, q] => match parseMetric m, parseStorage sg, parseInts v, parseInts q with
+      | some m, some sg, some v, some q =>
+        let s := match fromDense intOps q with
+          | .sparse dim qs => distSparse m (nodeOf sg v) dim qs
+          | .dense _ => ⟨0, 0⟩
+        (d, s!"ok {s.p} {s.r}")
+      | _, _, _, _ => bad
+  -- build_hnsw_index_with_options(storage, distance_metric) + search_with_hnsw on the default collection
+  | ["hwithm", m, sg, q, k] => match parseMetric m, parseStorage sg, parseInts q, k.toNat? with
+      | some m, some sg, some q, some k => (match buildIndex d.st with
+          | some snap => (d, showOutM m q (searchWithHnswM m sg snap q k))
+          | none => (d, "err build_dim_mismatch"))
+      | _, _, _, _ => bad
+  -- one collection configured with a metric, indexed by its owner with that metric (`ECol`)
+  | ["e", "new", m] => match parseMetric m with
+      | some m => ({ d with ec := ECol.init m }, "ok") | none => bad
+  | ["e", "store", k, v] => match parseInts v with
+      | some v => if v.isEmpty then (d, "err empty_vector") else ({ d with ec := d.ec.step (.store k v) }, "ok")
+      | none => bad
+  | ["e", "del", k] =>
+      if alHas d.ec.items k then ({ d with ec := d.ec.step (.delete k) }, "ok") else (d, "err not_found")
+  | ["e", "build", sg] => match parseStorage sg with
+      | some sg =>
+        if sameDimsV d.ec.items then ({ d with ec := d.ec.step (.build sg) }, s!"ok {d.ec.items.length}")
+        else (d, "err dim_mismatch")
+      | none => bad
+  | ["e", "inval"] => ({ d with ec := d.ec.step .invalidate }, "ok")
+  | ["e", "get", k] => (d, showOpt (alGet d.ec.items k))
+  | ["e", "search", q, k] => match parseInts q, k.toNat? with
+      | some q, some k => (d, showOutM d.ec.metric q (d.ec.search q k)) | _, _ => bad
   -- HNSWIndex::with_config(HNSWConfig { m, m0, ef_construction, .. })
   | ["hnew", m, m0, efc] => match m.toNat?, m0.toNat?, efc.toNat? with
       | some m, some m0, some efc => ({ d with h := ⟨⟨m, m0, efc⟩, Hnsw.Graph.empty, []⟩ }, "ok")
